@@ -82,6 +82,7 @@ func init() {
 			s.Yield(where)
 		}
 	}
+	lazyproto.VerifYield = csproto.VerifYield // scheduling points before atomic operations inside lazyproto
 	// scheduling points inside the protobuf-go runtime (before its size-cache atomics)
 	protoimpl.VerifSetYield(func(where string) {
 		if s := active; s != nil {
